@@ -87,9 +87,27 @@ def peak (L ch : Int) : Outcome :=
   if L ≠ 8 + ch * 8 then { decision := "bad-size" }
   else { decision := "read", writes := [{ dst := "peaks", cap := ch, off := 0, n := ch }], vals := [ch] }
 
-/-! ### wavlike_subchunk_parse: an INFO string sub-chunk (ISFT, ICOP, INAM, …) read into `char buffer [2048]`
-    s = the 32-bit size field, b = bytesread after the size field, lc = chunk_length of the LIST chunk -/
+/-! ### wavlike_subchunk_parse: the text buffer.  Since the repair of KF-C12-INFO-2046 it is allocated per LIST chunk:
+    `calloc (1, SF_MAX (SF_MIN (chunk_length, 100 * 1024), 2047) + 1)`; `infoBuffer` = that minimum + 1 (2048, the size of the
+    former `char buffer [2048]`), lc = chunk_length of the LIST chunk (after the clamp to the file length) -/
+def infoBufSize (lc : Int) : Int :=
+  (if (if lc < headerCap then lc else headerCap) > infoBuffer - 1 then (if lc < headerCap then lc else headerCap) else infoBuffer - 1) + 1
+
+/-! ### wavlike_subchunk_parse: an INFO string sub-chunk (ISFT, ICOP, INAM, …) read into the text buffer
+    s = the 32-bit size field, b = bytesread after the size field.  An item that overruns the LIST chunk ends the walk
+    ("too-big": `chunk_size > 0x7fffffff || (sf_count_t) bytesread + chunk_size > chunk_length` — a 64-bit sum since the
+    repair, because the skip below seeks by chunk_size: with the 32-bit sum of the old rule a size near 2^32 wrapped, passed
+    the test and the walk would step backwards for ever); one that fits the chunk but not the buffer is skipped ("skip");
+    "read" = memset + header_read of cs bytes into the buffer and the terminator behind them (whether the header cache then
+    delivers the bytes is the business of SfModel/HeaderCache.lean) -/
 def infoString (s b lc : Int) : Outcome :=
+  let cs := u32 (s + s % 2)
+  if cs > 2147483647 ∨ b + cs > lc then { decision := "too-big", vals := [cs] }
+  else if cs ≥ infoBufSize lc then { decision := "skip", vals := [cs] }
+  else { decision := "read", writes := [{ dst := "buffer", cap := infoBufSize lc, off := 0, n := cs }, { dst := "buffer", cap := infoBufSize lc, off := cs, n := 1 }], vals := [cs] }
+
+/-- the rule before the repairs: `char buffer [2048]`, and a too-long item ended the walk -/
+def infoStringOld (s b lc : Int) : Outcome :=
   let cs := u32 (s + s % 2)
   if cs ≥ infoBuffer ∨ u32 (b + cs) > lc then { decision := "too-big", vals := [cs] }
   else { decision := "read", writes := [{ dst := "buffer", cap := infoBuffer, off := 0, n := cs }, { dst := "buffer", cap := infoBuffer, off := cs, n := 1 }], vals := [cs] }
@@ -99,10 +117,10 @@ def infoString (s b lc : Int) : Outcome :=
 def labl (s b lc : Int) : Outcome :=
   let c1 := u32 (s - 4)
   let cs := u32 (c1 + c1 % 2)
-  if cs < 1 ∨ cs ≥ infoBuffer ∨ u32 (b + cs) > lc then { decision := "too-big", vals := [cs] }
+  if cs < 1 ∨ cs ≥ infoBufSize lc ∨ u32 (b + cs) > lc then { decision := "too-big", vals := [cs] }
   else { decision := "read",
-         writes := [{ dst := "buffer", cap := infoBuffer, off := 0, n := cs }, { dst := "buffer", cap := infoBuffer, off := cs, n := 1 },
-                    { dst := "cue.name<-buffer[0..)", cap := infoBuffer, off := 0, n := cueName }, field "cue.name" cueName],
+         writes := [{ dst := "buffer", cap := infoBufSize lc, off := 0, n := cs }, { dst := "buffer", cap := infoBufSize lc, off := cs, n := 1 },
+                    { dst := "cue.name<-buffer[0..)", cap := infoBufSize lc, off := 0, n := cueName }, field "cue.name" cueName],
          vals := [cs] }
 
 /-! ### wav.c `cue ` : count ≤ 2500, psf_cues_alloc (count), one 24-byte record per cue while the input delivers them
@@ -136,9 +154,17 @@ def smpl (L lc r : Int) : Outcome :=
     let final := if actual > instLoops then instLoops else if lc ≠ actual then actual else lc
     { decision := "read", writes := [{ dst := "loops", cap := instLoops, off := 0, n := stored }], vals := [final, actual] }
 
-/-! ### aiff.c NAME / AUTH / (c) / ANNO: the text is read into ubuf (BUF_UNION).  Each case has its own threshold
+/-! ### aiff.c NAME / AUTH / (c) / ANNO (aiff_read_text_chunk since the repair of KF-C12-AIFF-8190): the text is read into
+    `malloc (padded + 1)`, padded = chunk_size + (chunk_size & 1); chunks of more than the header cache's 100k are skipped.
+    (`slack` is kept in the request format: the four cases no longer differ.) -/
+def aiffText (_slack size : Int) : Outcome :=
+  if size = 0 then { decision := "empty" }
+  else if size > headerCap then { decision := "too-big" }
+  else { decision := "read", writes := [{ dst := "cptr", cap := size + size % 2 + 1, off := 0, n := size + size % 2 }, { dst := "cptr", cap := size + size % 2 + 1, off := size, n := 1 }], vals := [size] }
+
+/-- before it: the text was read into ubuf (BUF_UNION); each case had its own threshold
     `chunk_size >= sizeof (ubuf.scbuf) - slack` : slack = 0 for (c), 1 for AUTH, 2 for NAME and ANNO -/
-def aiffText (slack size : Int) : Outcome :=
+def aiffTextOld (slack size : Int) : Outcome :=
   if size = 0 then { decision := "empty" }
   else if size ≥ scbuf - slack then { decision := "too-big" }
   else { decision := "read", writes := [{ dst := "ubuf", cap := scbuf, off := 0, n := size + size % 2 }, { dst := "ubuf", cap := scbuf, off := size, n := 1 }], vals := [size] }
